@@ -138,6 +138,52 @@ Section Deck.
     exists imps, c. split; [reflexivity|]. split; [exact H2|]. apply (nth_error_In _ _ H3).
   Qed.
 
+  (* any card, explicit or LIKE n BUT *)
+  Lemma cell_at_any imp_cards cards lats cells skipped r key b opts :
+    parse_cells RS P imp_cards cards lats = Ok (cells, skipped) ->
+    nth_error (dict_of Z.eqb cards) r = Some (key, (b, opts)) ->
+    exists imps mat geom o c,
+      importance_cards RS P imp_cards = Ok imps /\
+      resolve_like (S (List.length (dict_of Z.eqb cards))) (dict_of Z.eqb cards) b opts = Ok (mat, geom, o) /\
+      cell_worker RS P imps r (dict_get Z.eqb key lats) mat geom o = Ok c /\
+      In (key, c) cells.
+  Proof.
+    intros H Hn. unfold parse_cells in H.
+    destruct (importance_cards RS P imp_cards) as [imps|]; cbn [bind] in H; [|discriminate].
+    destruct (dict_of Z.eqb cards) as [|d0 d] eqn:Ed; [discriminate|]. rewrite <- Ed in H, Hn.
+    destruct (parse_ranked_nth RS P _ _ _ _ _ _ _ _ _ _ _ H Hn) as (m & g & o & c & H1 & H2 & H3).
+    exists imps, m, g, o, c. rewrite <- Ed. split; [reflexivity|]. split; [exact H1|].
+    split; [exact H2|]. apply (nth_error_In _ _ H3).
+  Qed.
+
+  (* LIKE n BUT: the card handed to the parser is card n with the BUT options
+     appended to its own *)
+  Lemma resolve_like_base fuel (d : list card) n mat geom o1 o2 :
+    dict_get Z.eqb n d = Some (Explicit mat geom, o1) ->
+    resolve_like (S (S fuel)) d (Like n) o2 = Ok (mat, geom, (o1 ++ " " ++ o2)%string).
+  Proof. intros Hd. cbn [resolve_like]. rewrite Hd. reflexivity. Qed.
+
+  (* any card (explicit, LIKE n BUT, chains of LIKE): with [o] the options the
+     chain resolves to, the cell is skipped iff every IMP keyword met in [o] -
+     those of the cards it is LIKE and its own - gives zero. A BUT importance
+     can therefore only keep or raise what the base card says. *)
+  Theorem chain_zero_iff imp_cards cards lats cells skipped r key b opts mat geom o xs :
+    parse_cells RS P imp_cards cards lats = Ok (cells, skipped) ->
+    nth_error (dict_of Z.eqb cards) r = Some (key, (b, opts)) ->
+    resolve_like (S (List.length (dict_of Z.eqb cards))) (dict_of Z.eqb cards) b opts = Ok (mat, geom, o) ->
+    opt_imps RS P (option_tokens o) xs -> xs <> [] -> nonneg xs ->
+    (In key skipped <-> all_zero xs).
+  Proof.
+    intros H Hn Hres Hopt Hne Hnn.
+    destruct (cell_at_any _ _ _ _ _ _ _ _ _ H Hn) as (imps & m & g & o' & c & Hi & Hr & Hw & Hin).
+    rewrite Hres in Hr. injection Hr as <- <- <-.
+    pose proof (importance_of_cell RS P _ _ _ _ _ _ _ _ Hopt Hw) as Himp.
+    destruct (max_list RS xs) as [mx|] eqn:Em; [|destruct xs; [congruence|discriminate]].
+    destruct (skipped_iff_zero RS P _ _ _ _ _ H) as (_ & _ & Hs).
+    rewrite (Hs key c Hin), is_zero_real, Himp, <- (max_list_zero xs mx Hnn Em).
+    split; [intros E; injection E as ->; reflexivity|intros ->; reflexivity].
+  Qed.
+
   (* importances on data cards: the cell at rank r (no IMP keyword on its card)
      is skipped iff the entry at rank r of every IMP card is zero *)
   Theorem data_card_zero_iff imp_cards cards lats cells skipped first others r key mat geom opts :
